@@ -25,6 +25,7 @@ def base_schema():
     for n in ('std::str', 'std::int64', 'std::bool', 'std::float64'):
         schema, scalars[n] = mk(schema, n)
     schema, scalars['default::Color'] = mk(schema, 'default::Color', enum_values=['Red', 'Green', 'Blue'])
+    schema, scalars['default::Stimmung'] = mk(schema, 'default::Stimmung', enum_values=['fröhlich', 'müde', '悲しい'])
     schema, scalars['default::Size'] = mk(schema, 'default::Size', enum_values=['S', 'M'])
     return schema, scalars
 
@@ -35,7 +36,10 @@ def gen_type(schema, scalars, rnd, depth=0):
     if k == 'scalar':
         n = rnd.choice(['std::str', 'std::int64', 'std::bool', 'std::float64']); return schema, scalars[n], ('scalar', n)
     if k == 'enum':
-        n = rnd.choice(['default::Color', 'default::Size']); return schema, scalars[n], ('enum', n, tuple(scalars[n].get_enum_values(schema)))
+        n = rnd.choice(['default::Color', 'default::Size', 'default::Stimmung']); return schema, scalars[n], ('enum', n, tuple(scalars[n].get_enum_values(schema)))
+    if k == 'tuple' and rnd.random() < 0.15:      # the empty tuple
+        schema, t = s_types.Tuple.create(schema, element_types={}, named=False)
+        return schema, t, ('tuple', ())
     if k in ('tuple', 'ntuple'):
         n = rnd.randint(1, 3); subs = []; sts = []
         for _ in range(n):
@@ -43,7 +47,7 @@ def gen_type(schema, scalars, rnd, depth=0):
         if k == 'tuple':
             schema, t = s_types.Tuple.create(schema, element_types={str(i): s for i, s in enumerate(subs)}, named=False)
             return schema, t, ('tuple', tuple(sts))
-        names = rnd.sample(['a', 'b', 'lo', 'hi', 'label', 'x1'], n)
+        names = rnd.sample(['a', 'b', 'lo', 'hi', 'label', 'x1', 'größe', 'имя'], n)
         schema, t = s_types.Tuple.create(schema, element_types=dict(zip(names, subs)), named=True)
         return schema, t, ('ntuple', tuple(zip(names, sts)))
     if k == 'array':
@@ -93,7 +97,7 @@ def shapes(schema, scalars, rnd, n, res, fail):
             bases=so.ObjectList.create(schema, list(bases)), ancestors=so.ObjectList.create(schema, list(bases)))
     schema, Base = mko(schema, 'Base'); schema, A = mko(schema, 'A', [Base]); schema, B = mko(schema, 'B', [Base])
     ptrs = {}
-    NAMES = ['x', 'y', 'a:b', 'c', 'a', 'b:c']
+    NAMES = ['x', 'y', 'a:b', 'c', 'a', 'b:c', 'größe']
     for src in (Base, A, B):
         for nm in NAMES:
             for tn in ('std::str', 'std::int64'):
@@ -183,7 +187,7 @@ def main():
         for j in range(k):
             schema, pt, ps = gen_type(schema, scalars, rnd, 2)
             req = rnd.random() < 0.5
-            nm = rnd.choice(['x', 'y', 'lo', 'arg%d' % j]) + str(j)
+            nm = rnd.choice(['x', 'y', 'lo', 'größe', 'arg%d' % j]) + str(j)
             params.append((nm, pt, req)); pst.append((nm, ps, p_enums.Cardinality.ONE if req else p_enums.Cardinality.AT_MOST_ONE))
         res['params'] += 1
         for pv in ((1, 0), (2, 0), (3, 0)):
